@@ -60,7 +60,7 @@ def strategy_impl(draw, tier):
     phi = draw(gen.data_values(lead + [n], elements=st.integers(-9, 9).map(float)))
     level = draw(st.sampled_from(["kernel", "kernel", "api"]))
     case = {"n": n, "lead": lead, "shared": shared, "thetas": thetas, "edges": edges, "decreasing": decreasing,
-            "phi": phi, "level": level, "phi_dtype": draw(st.sampled_from(["float64", "float64", "float32"])), "affine": bool(affine)}
+            "phi": phi, "level": level, "phi_dtype": draw(st.sampled_from(["float64", "float64", "float32", "int64", "int32"])), "affine": bool(affine)}
     if level == "api":
         case["api"] = {
             "td_pos": draw(st.sampled_from(["outer", "outer", "center"])),
@@ -132,8 +132,8 @@ def check(case, ctx):
     bins = np.array(inc[::-1] if case["decreasing"] else inc)
     m = len(inc) - 1
     pdt = np.dtype(case.get("phi_dtype", "float64"))
-    wtol = 1e-12 if pdt == np.float64 else 2e-6   # single-precision data come back in single precision
-    otol = 1e-10 if pdt == np.float64 else 1e-5
+    wtol = 1e-12 if pdt != np.float32 else 2e-6   # single-precision data come back in single precision (whole-number data in double)
+    otol = 1e-10 if pdt != np.float32 else 1e-5
     phi = np.asarray(case["phi"], dtype=np.float64).reshape(tuple(lead) + (n,))
     profs = column_profiles(case)
     ncol = len(profs)
